@@ -1,7 +1,7 @@
 (* Proofs/BstReal.v -- the interpreter instantiated with the real name formatter (Model/BstReal.v):
    format.name$ is C11's format_name_n, and type soundness needs no hypothesis about it. *)
 From Pybtex Require Import Base.Prelude Base.PyChar Base.PyStr Model.BibtexStr Model.Wrap Model.Names Model.NameFormat
-  Model.Bst Model.BstReal Spec.BstTyping Proofs.Bst Proofs.BstTyping Proofs.NameFormatFmt Proofs.NameFormatRules.
+  Model.Bst Model.BstReal Spec.BstSem Spec.BstDoc Spec.BstTyping Proofs.Bst Proofs.BstTyping Proofs.BstDocSound Proofs.NameFormatFmt Proofs.NameFormatRules.
 Local Open Scope Z_scope.
 
 Lemma real_fmt_no_crash name f : real_fmt name f <> Crash.
@@ -29,9 +29,17 @@ Proof.
   destruct (NameFormat.format_name (nth (Z.to_nat (k - 1)) parts []) f) as [[t b]| | |]; cbn; eauto.
 Qed.
 
-Theorem welltyped_no_crash_real cw G ent cf s p s' :
-  ctx_ok G = true -> check G ent cf s p = Some s' ->
-  forall n st, state_ok G ent st -> sabs (st_stack st) s ->
+Theorem welltyped_no_crash_real cw G ent tys cf s p s' :
+  ctx_ok G = true -> check G ent tys cf s p = Some s' ->
+  forall n st, state_ok G ent tys st -> sabs (st_stack st) s ->
   exec_real cw n st p <> Crash /\
-  (forall st', exec_real cw n st p = Ok st' -> state_ok G ent st' /\ sabs (st_stack st') s').
+  (forall st', exec_real cw n st p = Ok st' -> state_ok G ent tys st' /\ sabs (st_stack st') s').
 Proof. intros. eapply welltyped_no_crash; eauto. apply real_fmt_no_crash. Qed.
+
+(* with the real name formatter: every terminating run of a well-typed program is derivable over the documented rules *)
+Theorem doc_sound_real cw G ent tys cf s p s' :
+  ctx_ok G = true -> check G ent tys cf s p = Some s' ->
+  forall n st st', state_ok G ent tys st -> sabs (st_stack st) s ->
+  exec_real cw n st p = Ok st' ->
+  bigsteps real_fmt cw (builtin_doc real_fmt cw) st p st'.
+Proof. intros. eapply doc_sound; eauto. apply real_fmt_no_crash. Qed.
